@@ -1059,3 +1059,122 @@ def colr_v0(data):
             raise Bad("COLR layer range out of bounds")
         base[g] = layers[first:first + n]
     return {"version": v, "base": base, "numLayers": nl}
+
+
+# ---------------------------------------------------------------- GPOS pair adjustment
+def _value_record(data, o, fmt):
+    """ValueRecord -> ((XPlacement, YPlacement, XAdvance, YAdvance), size); device/variation offsets are skipped."""
+    vals = [0, 0, 0, 0]
+    for bit in range(4):
+        if fmt & (1 << bit):
+            vals[bit] = _s16(data, o)
+            o += 2
+    for bit in range(4, 8):
+        if fmt & (1 << bit):
+            o += 2
+    return tuple(vals), o
+
+
+def gpos_pairpos(data):
+    """PairPos subtables of every GPOS lookup of type 2 (directly or through Extension, type 9).
+    -> [ None | [subtable] ] per lookup; subtable =
+       {format 1, coverage [gid], pairs {gid1: {gid2: (value1, value2)}}} or
+       {format 2, coverage [gid], classDef1 {gid: c}, classDef2 {gid: c}, class1Count, class2Count,
+        matrix [[(value1, value2)]]}; a value is (XPlacement, YPlacement, XAdvance, YAdvance)."""
+    out = []
+    for lt, lf, subs in _lookup_list(data):
+        sts = []
+        for so in subs:
+            t = lt
+            if t == 9:
+                if _u16(data, so) != 1:
+                    raise Bad("extension format")
+                t = _u16(data, so + 2)
+                so = so + _u32(data, so + 4)
+            if t != 2:
+                sts = None
+                break
+            fmt = _u16(data, so)
+            cf, cov = coverage(data, so + _u16(data, so + 2))
+            vf1, vf2 = _u16(data, so + 4), _u16(data, so + 6)
+            if fmt == 1:
+                n = _u16(data, so + 8)
+                if n != len(cov):
+                    raise Bad("PairPos format 1 pairSetCount %d != coverage size %d" % (n, len(cov)))
+                pairs = {}
+                for i, g1 in enumerate(cov):
+                    po = so + _u16(data, so + 10 + 2 * i)
+                    cnt = _u16(data, po)
+                    o = po + 2
+                    d = {}
+                    prev = -1
+                    for _k in range(cnt):
+                        g2 = _u16(data, o)
+                        if g2 <= prev:
+                            raise Bad("PairValueRecords not sorted by second glyph")
+                        prev = g2
+                        v1, o = _value_record(data, o + 2, vf1)
+                        v2, o = _value_record(data, o, vf2)
+                        d[g2] = (v1, v2)
+                    pairs[g1] = d
+                sts.append({"format": 1, "coverage": cov, "pairs": pairs})
+            elif fmt == 2:
+                cd1 = classdef(data, so + _u16(data, so + 8))[1]
+                cd2 = classdef(data, so + _u16(data, so + 10))[1]
+                c1n, c2n = _u16(data, so + 12), _u16(data, so + 14)
+                o = so + 16
+                matrix = []
+                for _i in range(c1n):
+                    row = []
+                    for _j in range(c2n):
+                        v1, o = _value_record(data, o, vf1)
+                        v2, o = _value_record(data, o, vf2)
+                        row.append((v1, v2))
+                    matrix.append(row)
+                sts.append({"format": 2, "coverage": cov, "classDef1": cd1, "classDef2": cd2, "class1Count": c1n,
+                            "class2Count": c2n, "matrix": matrix})
+            else:
+                raise Bad("PairPos format %d" % fmt)
+        out.append(sts)
+    return out
+
+
+_ZERO_PAIR = ((0, 0, 0, 0), (0, 0, 0, 0))
+
+
+def pairpos_effective(subtables, num_glyphs):
+    """What a lookup made of these PairPos subtables does (OpenType: subtables are tried in order; a format 2
+    subtable applies as soon as the first glyph is covered, a format 1 subtable only when the pair is listed).
+    -> {(gid1, gid2): (value1, value2)} for every pair with a non-zero adjustment."""
+    out = {}
+    claimed = set()        # first glyphs already handled by a format 2 subtable
+    listed = set()         # pairs already decided by a format 1 subtable
+    for st in subtables:
+        if st["format"] == 1:
+            for g1, d in st["pairs"].items():
+                if g1 in claimed:
+                    continue
+                for g2, v in d.items():
+                    if (g1, g2) in listed:
+                        continue
+                    listed.add((g1, g2))
+                    if v != _ZERO_PAIR:
+                        out[(g1, g2)] = v
+        else:
+            cd1, cd2, m = st["classDef1"], st["classDef2"], st["matrix"]
+            col = [cd2.get(g2, 0) for g2 in range(num_glyphs)]
+            for g1 in st["coverage"]:
+                if g1 in claimed:
+                    continue
+                claimed.add(g1)
+                c1 = cd1.get(g1, 0)
+                if c1 >= len(m):
+                    raise Bad("class1 %d of glyph %d beyond class1Count %d" % (c1, g1, len(m)))
+                row = m[c1]
+                if col and max(col) >= len(row):
+                    raise Bad("class2 value beyond class2Count %d" % len(row))
+                for g2, c2 in enumerate(col):
+                    v = row[c2]
+                    if v != _ZERO_PAIR and (g1, g2) not in listed:
+                        out[(g1, g2)] = v
+    return out
